@@ -3,19 +3,20 @@
 Copies /tmp/wt2-out/<prop>/{patch<k>.diff,demo<k>_test.go,notes<k>.md} to /verif/seeded/<prop>-r2-agent<k>/."""
 import sys, os, json, shutil
 prop, k, det, miss = sys.argv[1:5]
+RND = os.environ.get("SEED_ROUND", "2")
 rest = " ".join(sys.argv[5:]).split(" -- ")
 change, needs = rest[0], rest[1]
 strength = rest[2] if len(rest) > 2 else ""
-src = "/tmp/wt2-out/%s" % prop
-dst = "/verif/seeded/%s-r2-agent%s" % (prop, k)
+src = "/tmp/wt%s-out/%s" % (RND, prop)
+dst = "/verif/seeded/%s-r%s-agent%s" % (prop, RND, k)
 os.makedirs(dst, exist_ok=True)
 shutil.copy("%s/patch%s.diff" % (src, k), dst + "/patch.diff")
 shutil.copy("%s/demo%s_test.go" % (src, k), dst + "/demo_test.go")
 if os.path.exists("%s/notes%s.md" % (src, k)):
     shutil.copy("%s/notes%s.md" % (src, k), dst + "/notes.md")
 meta = {
-    "id": "%s-r2-agent%s" % (prop, k),
-    "origin": "round 2: independent sub-agent given only the property text, a scratch worktree and the hint to avoid the obvious single-check mutants",
+    "id": "%s-r%s-agent%s" % (prop, RND, k),
+    "origin": "round %s: independent sub-agent given only the property text, a scratch worktree and the hint to avoid the kinds of change earlier rounds produced" % RND,
     "breaks": [prop],
     "change": change,
     "needs_to_manifest": needs,
